@@ -1,5 +1,6 @@
 import CM.Ops.Blocks
 import CM.Proofs.ParseScanMain
+import CM.Proofs.ParseAsmCheck
 /-
 `tailhyp`: the two decidable tail facts under which `blockphase_contOK2` (C02 / C04 inline halves, `Props/C02Scan.lean`) derives
 the scanner facts for the containers of a block-phase tree - `TailNP` (the byte after the container's last run is not `)`) for
@@ -65,6 +66,13 @@ theorem tailsOKb_iff (rs : List Root) : tailsOKb rs = true ↔
     by_cases hk : p.1.kind = BK.atxHeading
     · exact Or.inr (h2 hk)
     · exact Or.inl hk
+
+/-- What the op `tailhyp` evaluates is the hypothesis `ParseTails` of the whole-`Parse` theorems `parse_spans_of_tails` /
+    `parse_noPanic_of_tails` (the block phase does not depend on the inline externals). -/
+theorem tailsOKb_parseTails (x : PExt) (ix : IExt) (inp : Bytes)
+    (h : tailsOKb (drain (blocksLP x) (inp.length + 8) (memParser inp) []).1 = true) : PSc.ParseTails x ix inp := by
+  intro pr hpr p hp
+  exact (tailsOKb_iff _).1 h pr.root (PW.root_mem_drain x ix inp pr hpr) p hp
 
 /-- `tailhyp <inputHex> <ext> <fold>` → `ok` when both tail facts hold for every container of every block-phase root. -/
 def tailhypOp : Op
